@@ -209,6 +209,8 @@ class Program:
         self.fns = {}
         for f in j["fns"]:
             self.fns[f["key"]] = f
+        # library MIR of the std combinators the crate instantiates (interpreter fall-back; not part of the crate's own function table)
+        self.ext = {f["key"]: f for f in j.get("ext_fns", [])}
         self.adts = {a["path"]: a for a in j["adts"]}
         self.impls = j["impls"]
 
